@@ -21,8 +21,9 @@ answer as for `xform`, followed by ` ; regular` / ` ; not-regular` (the model's 
 library given as (kind, implementation) blocks; answer as for `xform`.
 
 `substok` (arguments as `subst`) — the hypotheses of `C10.substitute_sem` evaluated on the case, `1`/`0` each:
-`<host wf> <impl wf> <cell no port> <cell no fork> <keepsAllB> <implOKB> <regularB> <result wf> <noIgnoredB> <result wfNoTrail>`
-(`-` for the result flags when the model answers `raise`).  `resolveok` (arguments as `resolve`) — those of `C10.resolve_sem`: `<host wf> <resolveOKB> <result wf> <first failing condition or ok>`. -/
+`<host wf> <impl wf> <cell no port> <cell no fork> <keepsAllB> <implOKB> <regularB> <result wf> <noIgnoredB> <result wfNoTrail> <denseB>`
+(`-` for the result flags when the model answers `raise`; `denseB` = 0: a copied fork had a gap that the loop added with the
+repair of D30 squeezed out — the theorems hold there too, the flag only counts such cases).  `resolveok` (arguments as `resolve`) — those of `C10.resolve_sem`: `<host wf> <resolveOKB> <result wf> <first failing condition or ok>`. -/
 namespace KV.Drv.Transform
 open KV KV.Transform
 
@@ -98,7 +99,7 @@ def handleSubstOk (args : List String) : String :=
     let ci := c.toNat!
     " ".intercalate [b01 h.wf, b01 m.wf, b01 (!(h.net.io.contains ci)), b01 (!((h.net.node ci).isFork)), b01 (keepsAllB h ci m),
       b01 (implOKB m), b01 (regularB h ci m), (match substitute h ci m with | some r => b01 r.wf | none => "-"),
-      b01 (noIgnoredB h ci m), match substitute h ci m with | some r => b01 r.wfNoTrail | none => "-"]
+      b01 (noIgnoredB h ci m), (match substitute h ci m with | some r => b01 r.wfNoTrail | none => "-"), b01 (denseB h ci m)]
   | _ => "bad-args"
 
 /-- `resolve <host names> <host dump...> @@ <kind> <impl names> <impl dump...> @@ <kind> ...` -/
